@@ -148,6 +148,22 @@ def wl_datetimes(ctx, rng, i):
             ctx.see("precision/constraint", p + "/" + c)
         ctx.see("year digits", str(len(str(x.year))))
         ctx.see("microsecond trailing zeros", str(6 - len(str(x_us % 1000000).rstrip("0"))) if x_us % 1000000 else "none")
+        # format_datetime on a STIXdatetime that carries precision metadata but was NOT truncated beforehand
+        # (public class; this is the path on which format_datetime itself must truncate, never round)
+        if form != "date":
+            for p, c in PC:
+                ctx.ev()
+                try:
+                    got = u.format_datetime(u.STIXdatetime(x, precision=p, precision_constraint=c))
+                except Exception as e:
+                    ctx.violation("raised-on-valid-input", "format_datetime(STIXdatetime(...)) raised %s" % type(e).__name__,
+                                  {"input": repr(x), "precision": p, "constraint": c, "exception": repr(e)})
+                    continue
+                exp = ts.format_us(x_us, p, c)
+                ctx.count("direct_stixdatetime")
+                if got != exp:
+                    ctx.violation(classify_text_mismatch(got, exp), "format_datetime(STIXdatetime(%s/%s)) gave %r, expected %r" % (p, c, got, exp),
+                                  {"input": repr(x), "precision": p, "constraint": c, "got": got, "expected": exp, "route": "STIXdatetime direct"})
         # direct formatting of a plain datetime (no precision metadata -> ANY)
         if form != "date":
             ctx.ev()
